@@ -1,9 +1,13 @@
 /* e_comp - Tie-B engine for C05 (lossless coders through hcomp.c).
  * One case = one compressed element in a fresh file:
- *   coder in {RLE, NONE, SKPHUFF(skip 1..9), DEFLATE(0..9)}; data from structured generators;
+ *   coder in {RLE, NONE, SKPHUFF(skip 1..9, sometimes 10..40), DEFLATE(0..9)}; data from structured generators;
  *   written through a random partition into Hwrite calls; optional full rewrite from the start;
  *   raw DFTAG_COMPRESSED bytes fetched and (RLE) handed to the Lean model:  T rle enc <data> => <raw>
  *   and the raw bytes decoded by the model:                                 T rle dec <raw>  => <data>
+ * Besides the random generators, skipping-Huffman elements (and now and then the other coders) get the structured families of
+ * harness/skpgen.h on every lane (ramps, gapped ramps repeated, sorted / reverse-sorted alphabets, hill-climbed adversaries):
+ * codes of more than 32, 64 and 96 bits.  STAT max_skphuff_code_bits = longest code of the run (a maximum), skphuff_codes_* =
+ * bytes coded with that many bits (measured on the replica).
  * Oracles (implementation only): every read, under random partitions and forward/backward seeks, in the
  * writing session, and after close/reopen, equals the shadow copy; HCPgetdatasize sizes equal what is stored.
  */
@@ -11,6 +15,7 @@
 #include "hfile_priv.h"
 #include "hcomp.h"
 #include "hk.h"
+#include "skpgen.h" /* replica of the skipping-Huffman code tree: structured input families that drive the trees deep, code-length STATs */
 
 #define MAXLEN 70000
 static uint8_t data[MAXLEN], data2[MAXLEN], rbuf[MAXLEN + 16], raw[4 * MAXLEN + 1024];
@@ -141,13 +146,19 @@ static void run_case(int k)
     comp_coder_t coder;
     char cname[32];
     int pick = (int)hk_range(0, 9);
+    long fails0 = hk_nfail; /* oracle failures before this case */
     memset(&cinfo, 0, sizeof cinfo); memset(&minfo, 0, sizeof minfo);
     if (pick < 5) { coder = COMP_CODE_RLE; strcpy(cname, "rle"); }
     else if (pick < 6) { coder = COMP_CODE_NONE; strcpy(cname, "none"); }
-    else if (pick < 8) { coder = COMP_CODE_SKPHUFF; cinfo.skphuff.skp_size = (int)hk_range(1, 9); sprintf(cname, "skphuff%d", cinfo.skphuff.skp_size); }
+    else if (pick < 8) { coder = COMP_CODE_SKPHUFF; cinfo.skphuff.skp_size = hk_chance(85) ? (int)hk_range(1, 9) : (int)hk_range(10, 40); sprintf(cname, "skphuff%d", cinfo.skphuff.skp_size); }
     else { coder = COMP_CODE_DEFLATE; cinfo.deflate.level = (int)hk_range(0, 9); sprintf(cname, "deflate%d", cinfo.deflate.level); }
 
-    int n = gen_data(data, (int)maxlen);
+    /* structured families: for skipping Huffman on its own lanes (long enough for the trees to get deep, whatever maxlen is),
+       for the other coders as 1..4-byte-wide values */
+    int structured = coder == COMP_CODE_SKPHUFF ? hk_chance(40) : hk_chance(6);
+    int lanes = coder == COMP_CODE_SKPHUFF ? cinfo.skphuff.skp_size : (int)hk_range(1, 4);
+    int n = structured ? (int)skp_gen_structured(data, 521L * lanes, lanes, coder == COMP_CODE_SKPHUFF && hk_chance(50), NULL) : gen_data(data, (int)maxlen);
+    if (structured) hk_stat("structured_cases", 1);
     uint16 tag = (uint16)hk_range(1000, 1010), ref = (uint16)hk_range(1, 5);
     printf("INFO coder=%s n=%d\n", cname, n);
     int32 fid = Hopen(path, DFACC_CREATE, (int16)(hk_chance(50) ? 0 : hk_range(4, 20)));
@@ -169,7 +180,8 @@ static void run_case(int k)
 
     /* optional full rewrite from the start with different content (>= old length is required by the coders) */
     if (hk_chance(35)) {
-        int n2 = gen_data(data2, (int)maxlen);
+        int n2 = structured ? (int)skp_gen_structured(data2, 521L * lanes, lanes, coder == COMP_CODE_SKPHUFF && hk_chance(50), NULL) : gen_data(data2, (int)maxlen);
+        if (structured && n2 > 0) for (; n2 < n; n2++) data2[n2] = data2[n2 - 1] ^ (uint8_t)n2; /* a rewrite has to cover the old length */
         if (n2 >= n && n2 > 0) { /* a zero-length Hwrite is refused by design (same rule as for the first write) */
             int32 a2 = Hstartwrite(fid, tag, ref, n2);
             if (a2 == FAIL) hk_fail("comp-startwrite", "%s rewrite", cname);
@@ -185,6 +197,16 @@ static void run_case(int k)
         }
     }
 
+    if (coder == COMP_CODE_SKPHUFF) { /* how deep did the trees get (replica; the element now holds cur[0..curn)) */
+        skp_lens sl;
+        skp_measure(cur, curn, cinfo.skphuff.skp_size, &sl, NULL);
+        hk_stat("max_skphuff_code_bits", sl.maxbits);
+        if (sl.n33) hk_stat("skphuff_codes_33_64", sl.n33);
+        if (sl.n65) hk_stat("skphuff_codes_65_96", sl.n65);
+        if (sl.n97) hk_stat("skphuff_codes_97_128", sl.n97);
+        if (sl.n129) hk_stat("skphuff_codes_gt128", sl.n129);
+        if (sl.maxbits > 64) hk_stat("skphuff_cases_code_gt64", 1);
+    }
     /* sizes + raw compressed bytes */
     int32 csz = -1, osz = -1;
     if (HCPgetdatasize(fid, tag, ref, &csz, &osz) == FAIL) hk_fail("comp-getdatasize", "%s", cname);
@@ -233,7 +255,8 @@ static void run_case(int k)
         fid = Hopen(path, DFACC_READ, 0);
         if (fid == FAIL) { hk_fail("comp-reopen", "%s", cname); return; }
         { int32 g = Hgetelement(fid, tag, ref, rbuf);
-          if (g != curn || memcmp(rbuf, cur, (size_t)curn) != 0) hk_fail("comp-read-only-session-changed-data", "%s: after a read through a write-access handle and Hendaccess the element differs (g=%d n=%d)", cname, (int)g, curn); }
+          /* stated only when the element read back right so far in this case: otherwise it was wrong before this session */
+          if (hk_nfail == fails0 && (g != curn || memcmp(rbuf, cur, (size_t)curn) != 0)) hk_fail("comp-read-only-session-changed-data", "%s: after a read through a write-access handle and Hendaccess the element differs (g=%d n=%d)", cname, (int)g, curn); }
         Hclose(fid);
     }
 
